@@ -56,6 +56,9 @@ type stsPlan struct {
 	Throttled bool `json:"throttled,omitempty"`
 	// Conflicting: every update of this StatefulSet is answered with 409 Conflict (another controller keeps writing it)
 	Conflicting bool `json:"conflicting,omitempty"`
+	// MatchExpr: the StatefulSet's selector also has a match expression (sts In [<label>]) that selects the same pods
+	// as its match labels do
+	MatchExpr bool `json:"matchExpr,omitempty"`
 }
 
 type coordCase struct {
@@ -200,6 +203,9 @@ func execCoord(c *coordCase, only int) *coordObs {
 		}
 		set := mkSts(s.Name, s.Pods, []string{"data"}, s.podLabel(), s.Pods)
 		set.Namespace = s.ns()
+		if s.MatchExpr {
+			set.Spec.Selector.MatchExpressions = []metav1.LabelSelectorRequirement{{Key: "sts", Operator: metav1.LabelSelectorOpIn, Values: []string{s.podLabel()}}}
+		}
 		if s.OnDelete {
 			set.Spec.UpdateStrategy.Type = appsv1.OnDeleteStatefulSetStrategyType
 		}
@@ -356,6 +362,9 @@ func runCoord(c *coordCase) (vs []vkit.Violation, classes []string) {
 	obs := execCoord(c, -1)
 	if obs.crash != "" {
 		add("C18/coordinator-panics", "the coordinator panicked: %s", obs.crash)
+		if len(c.Sets) > 1 {
+			add("C19/k8s/coordinator-panics", "the coordinator panicked while coordinating %d StatefulSets, none of them is coordinated from then on: %s; sets %+v", len(c.Sets), obs.crash, c.Sets)
+		}
 	}
 	if obs.hung {
 		add("C18/harness", "the history did not finish within 20s")
@@ -371,6 +380,12 @@ func runCoord(c *coordCase) (vs []vkit.Violation, classes []string) {
 		}
 		if c.Sets[si].Conflicting {
 			classes = append(classes, "coord/every-update-of-one-statefulset-conflicts")
+			break
+		}
+	}
+	for si := range c.Sets {
+		if c.Sets[si].MatchExpr {
+			classes = append(classes, "coord/statefulset-whose-selector-has-a-match-expression")
 			break
 		}
 	}
@@ -481,6 +496,7 @@ func genCoord(t *rapid.T) *coordCase {
 		if !s.Throttled && rapid.IntRange(0, 5).Draw(t, fmt.Sprintf("conflicting%d", i)) == 0 {
 			s.Conflicting = true
 		}
+		s.MatchExpr = rapid.IntRange(0, 4).Draw(t, fmt.Sprintf("matchExpr%d", i)) == 0
 		if c.AllNS {
 			s.NS = rapid.SampledFrom([]string{"", "tenant-b", "tenant-c"}).Draw(t, fmt.Sprintf("ns%d", i))
 			if i > 0 && rapid.Bool().Draw(t, fmt.Sprintf("sameName%d", i)) {
